@@ -29,6 +29,51 @@ contract('biogeme.expressions.base_expressions.Expression.get_value_c', 'C12', v
 contract('biogeme.database.Database.get_sample_size', 'C12', verify=False, pure=True, reads=['data', 'individualMap', 'panelColumn'],
          returns='int', ensures={'t': 'True'}, label='Database.get_sample_size(assumed)', note='number of rows / individuals')
 
+REPLAY_AUDIT = '''
+import warnings; warnings.simplefilter('ignore')
+import subprocess, sys
+# each case: formulas of one BIOGEME object -> (the formulas, fragments every one of which the refusal must quote; none = accepted)
+CASES = {
+ 'valid': ("{'log_like': b * x, 'weight': Numeric(1)}", []),
+ 'valid, three formulas': ("{'log_like': b * x, 'p1': exp(b), 'p2': MonteCarlo(x * d)}", []),
+ 'draws outside in the only formula': ("{'log_like': b * x * d}", ['outside the MonteCarlo']),
+ 'draws outside in the LAST of three': ("{'log_like': b * x, 'p1': exp(b), 'p2': x + d}", ['outside the MonteCarlo']),
+ 'random variable outside in the second': ("{'log_like': b * x, 'p1': exp(b) + rv}", ['outside the Integrate']),
+ 'absent column in the weight': ("{'log_like': b * x, 'weight': Variable('nope')}", ['nope']),
+ 'absent column in the first, draws in the last': ("{'log_like': b * Variable('nope'), 'p1': exp(b), 'p2': x * d}", ['nope', 'outside the MonteCarlo']),
+ 'two faults in one formula': ("{'log_like': b * x * d * rv}", ['outside the MonteCarlo', 'outside the Integrate']),
+ 'MonteCarlo without draws in the middle one': ("{'log_like': b * x, 'p1': MonteCarlo(x), 'p2': exp(b)}", ['MonteCarlo']),
+ 'faults in all three': ("{'log_like': x * d, 'p1': b + rv, 'p2': Variable('nope2')}", ['outside the MonteCarlo', 'outside the Integrate', 'nope2']),
+}
+PROG = """
+import warnings, logging; warnings.simplefilter('ignore'); logging.disable(logging.CRITICAL)
+import pandas as pd
+from biogeme.database import Database
+from biogeme.biogeme import BIOGEME
+from biogeme.parameters import Parameters
+from biogeme.expressions import *
+from biogeme.exceptions import BiogemeError
+db = Database('d', pd.DataFrame({'x': [1.0, 2.0], 'y': [0.0, 1.0]}))
+b = Beta('b', 0.5, None, None, 0); x = Variable('x'); d = bioDraws('d', 'NORMAL'); rv = RandomVariable('omega')
+try:
+    BIOGEME(db, %s, parameters=Parameters()); print('accepted')
+except BiogemeError as e:
+    print('BiogemeError::' + str(e).replace(chr(10), ' / '))
+except Exception as e:
+    print(type(e).__name__ + '::' + str(e)[:200])
+"""
+wrong = []
+for name, (src, frags) in CASES.items():      # one process per case (sticky engine error state)
+    r = subprocess.run([sys.executable, '-c', PROG % src], capture_output=True, text=True)
+    out = (r.stdout.strip().splitlines() or ['crash::' + r.stderr[-200:]])[-1]
+    kind, _, msg = out.partition('::')
+    ok = (kind == 'accepted') if not frags else (kind == 'BiogemeError' and all(f in msg for f in frags))
+    if not ok:
+        wrong.append((name, out[:300]))
+violated = bool(wrong)
+detail = f'cases where BIOGEME(...) does not refuse exactly the faulty specifications, quoting every error: {wrong[:4]}'
+'''
+
 F = 'old(c12c_formula(self.formulas, q))'
 DBF = 'self.database'
 FAULT_Q = (f'c12c_misplaced_draws({F}) or c12c_misplaced_rv({F}) or aud_nerr({F}, {DBF}) > 0')
@@ -44,4 +89,7 @@ contract(BG + '_audit', 'C12', modifies=[],
              'no_raise_so_far': f'forall(lambda q: not aud_raises({F}, {DBF}), 0, _k)',
              'no_error_only_if_no_fault_so_far': f'implies(len(list_of_errors) == 0, forall(lambda q: not ({FAULT_Q}), 0, _k))',
              'no_fault_so_far_only_if_no_error': f'implies(forall(lambda q: not ({FAULT_Q}), 0, _k), len(list_of_errors) == 0)',
-             'errors_of_every_formula_collected': f'forall(lambda q: c12c_includes(list_of_errors, aud_err({F}, {DBF})), 0, _k)'}}})
+             'count_so_far': f'len(list_of_errors) == old(c12c_audit_upto(self.formulas, self.database, _k))',
+             'errors_of_every_formula_collected_in_order':
+                 f'c12c_audit_in_order(list_of_errors, old(self.formulas), old(self.database), _k)'}}},
+         replay=REPLAY_AUDIT)
